@@ -243,23 +243,26 @@ def make_ae(title='SRV', supported_ts=None, max_pdu_length=65536, cls=None, **kw
 
 def rq_spec(contexts, max_len=16384, called='SRV', calling='CLI', app='1.2.840.10008.3.1.1.1', extra_subs=(), ver=1,
             reserved=0):
-    """A-ASSOCIATE-RQ spec: contexts = [(id, abstract, [ts..])]."""
-    items = [{'t': 0x10, 'r': 0, 'name': app}]
+    """A-ASSOCIATE-RQ spec: contexts = [(id, abstract, [ts..])].  `reserved` fills EVERY reserved field, of the
+    PDU and of its items and sub-items (receivers shall not test them)."""
+    rb = reserved & 0xFF
+    items = [{'t': 0x10, 'r': rb, 'name': app}]
     for cid, abs_, tss in contexts:
-        items.append({'t': 0x20, 'r1': 0, 'id': cid, 'r2': 0, 'r3': 0, 'r4': 0,
-                      'abs': {'r': 0, 'name': abs_}, 'ts': [{'r': 0, 'name': t} for t in tss]})
-    items.append({'t': 0x50, 'r': 0, 'subs': [{'t': 0x51, 'r': 0, 'max': max_len}] + list(extra_subs)})
+        items.append({'t': 0x20, 'r1': rb, 'id': cid, 'r2': rb, 'r3': rb, 'r4': rb,
+                      'abs': {'r': rb, 'name': abs_}, 'ts': [{'r': rb, 'name': t} for t in tss]})
+    items.append({'t': 0x50, 'r': rb, 'subs': [{'t': 0x51, 'r': rb, 'max': max_len}] + list(extra_subs)})
     return {'t': 1, 'r1': reserved & 0xFF, 'ver': ver, 'r2': reserved & 0xFFFF, 'called': called, 'calling': calling,
             'r3': [reserved] * 8, 'items': items}
 
 
 def ac_spec(answers, max_len=16384, called='SRV', calling='CLI', app='1.2.840.10008.3.1.1.1', extra_subs=(), ver=1,
             reserved=0):
-    """A-ASSOCIATE-AC spec: answers = [(id, result, ts)]."""
-    items = [{'t': 0x10, 'r': 0, 'name': app}]
+    """A-ASSOCIATE-AC spec: answers = [(id, result, ts)].  `reserved` fills every reserved field, nested ones too."""
+    rb = reserved & 0xFF
+    items = [{'t': 0x10, 'r': rb, 'name': app}]
     for cid, res, ts in answers:
-        items.append({'t': 0x21, 'r1': 0, 'id': cid, 'r2': 0, 'result': res, 'r3': 0, 'ts': {'r': 0, 'name': ts}})
-    subs = ([{'t': 0x51, 'r': 0, 'max': max_len}] if max_len is not None else []) + list(extra_subs)
-    items.append({'t': 0x50, 'r': 0, 'subs': subs})
+        items.append({'t': 0x21, 'r1': rb, 'id': cid, 'r2': rb, 'result': res, 'r3': rb, 'ts': {'r': rb, 'name': ts}})
+    subs = ([{'t': 0x51, 'r': rb, 'max': max_len}] if max_len is not None else []) + list(extra_subs)
+    items.append({'t': 0x50, 'r': rb, 'subs': subs})
     return {'t': 2, 'r1': reserved & 0xFF, 'ver': ver, 'r2': reserved & 0xFFFF, 'called': called, 'calling': calling,
             'r3': [reserved] * 8, 'items': items}
